@@ -69,132 +69,135 @@ func breakExpr(t *rapid.T, e hx.Expr, tab hx.Table) (hx.Expr, string) {
 	}
 }
 
-func TestC07(t *testing.T) {
-	rapid.Check(t, func(t *rapid.T) {
-		base := hx.GenTable(t, hx.TableOpt{MinCols: 2, MaxCols: 6, AllowDerived: true})
-		// user columns may carry the very names Eval uses for its temporaries (legal column names)
-		tempLike := false
-		if rapid.IntRange(0, 3).Draw(t, "templikenames") == 0 {
-			names := rapid.Permutation(tempLikeNames).Draw(t, "tempnames")
-			for i := range base.Cols {
-				if i < len(names) && rapid.Bool().Draw(t, "rename") {
-					base.Cols[i].Name = names[i]
-					tempLike = true
-				}
+func TestC07(t *testing.T) { rapid.Check(t, propC07) }
+
+// FuzzC07: the same property driven by coverage-guided bytes (thorough tier).
+func FuzzC07(f *testing.F) { f.Fuzz(rapid.MakeFuzz(propC07)) }
+
+func propC07(t *rapid.T) {
+	base := hx.GenTable(t, hx.TableOpt{MinCols: 2, MaxCols: 6, AllowDerived: true})
+	// user columns may carry the very names Eval uses for its temporaries (legal column names)
+	tempLike := false
+	if rapid.IntRange(0, 3).Draw(t, "templikenames") == 0 {
+		names := rapid.Permutation(tempLikeNames).Draw(t, "tempnames")
+		for i := range base.Cols {
+			if i < len(names) && rapid.Bool().Draw(t, "rename") {
+				base.Cols[i].Name = names[i]
+				tempLike = true
 			}
 		}
-		steps := 4
-		if hx.Rarely(t, 600, "blocksize") {
-			base, steps = hx.GenBlockTable(t), 1
+	}
+	steps := 4
+	if hx.Rarely(t, 600, "blocksize") {
+		base, steps = hx.GenBlockTable(t), 1
+	}
+	d := hx.GenDerived(t, base, steps)
+	in := d.Input(t)
+	// now and then the frame has an earlier life that touched its data columns (observed afterwards)
+	if steps > 1 && len(in.Cols) > 0 && rapid.IntRange(0, 5).Draw(t, "history") == 0 {
+		var hist hx.History
+		d.QF, in, hist = hx.GenHistory(t, d.QF, in, true)
+		d.Route = append(d.Route, hist.String())
+	}
+	custom := rapid.IntRange(0, 2).Draw(t, "customctx") == 0
+	want := rapid.SampledFrom([]hx.Kind{hx.KInt, hx.KFloat, hx.KBool, hx.KString, hx.KEnum}).Draw(t, "want")
+	expr := hx.GenExprOfKind(t, in, want, rapid.IntRange(0, 3).Draw(t, "depth"), custom)
+	broken := ""
+	if rapid.IntRange(0, 4).Draw(t, "illformed") == 0 {
+		expr, broken = breakExpr(t, expr, in)
+	}
+	dst := rapid.SampledFrom([]string{"n1", "n2", in.Cols[0].Name, in.Cols[len(in.Cols)-1].Name, "n1", "unary-temp-0", "const-temp-1"}).Draw(t, "dst")
+	badDst := false
+	if rapid.IntRange(0, 19).Draw(t, "baddst") == 0 {
+		dst = rapid.SampledFrom([]string{"", "'q'", "\"q\"", "$v", "$", "'q\nq'", "\"\n\""}).Draw(t, "illegaldst")
+		badDst = true
+	}
+	desc := func() string {
+		return d.String() + "customctx=" + boolStr(custom) + " dst=" + dst + " expr " + expr.String() + " broken=" + broken
+	}
+	var fns []eval.ConfigFunc
+	var ctx *eval.Context
+	if custom {
+		ctx = hx.NewCtx()
+		fns = append(fns, eval.EvalContext(ctx))
+	}
+	var res qframe.QFrame
+	realExpr := expr.Build()
+	if custom && rapid.IntRange(0, 3).Draw(t, "reregister") == 0 {
+		// the context is used once while every user function is still a decoy of the same signature (returning zero
+		// values), then the real functions are registered under the same names: the next lookup finds those
+		hx.SetDecoys(ctx)
+		_ = hx.Safely(func() { _ = d.QF.Eval(dst, realExpr, fns...) })
+		hx.SetReal(ctx)
+	}
+	if rapid.IntRange(0, 3).Draw(t, "secondcall") == 0 {
+		// one Expression value used twice (first on a sibling frame with other temporaries in play): the second use counts
+		_ = hx.Safely(func() { _ = d.QF.Copy("const-temp-0", in.Cols[0].Name).Eval(dst, realExpr, fns...) })
+	}
+	if perr := hx.Safely(func() { res = d.QF.Eval(dst, realExpr, fns...) }); perr != nil {
+		t.Fatalf("Eval panicked: %v\n%s", perr, desc())
+	}
+	_, terr := expr.Type(in, custom)
+	if terr != nil || badDst {
+		if res.Err == nil {
+			t.Fatalf("Eval accepted an invalid expression/destination (model: %v, bad dst: %v)\n%s", terr, badDst, desc())
 		}
-		d := hx.GenDerived(t, base, steps)
-		in := d.Input(t)
-		// now and then the frame has an earlier life that touched its data columns (observed afterwards)
-		if steps > 1 && len(in.Cols) > 0 && rapid.IntRange(0, 5).Draw(t, "history") == 0 {
-			var hist hx.History
-			d.QF, in, hist = hx.GenHistory(t, d.QF, in, true)
-			d.Route = append(d.Route, hist.String())
+		evC07.Case(false, desc, "predicted-error:"+broken)
+		return
+	}
+	if res.Err != nil {
+		t.Fatalf("Eval returned Err for a well-typed expression: %v\n%s", res.Err, desc())
+	}
+	col := expr.EvalCol(in, dst, custom)
+	wantT := in.With(col)
+	if expr.Op == "col" && expr.Col == dst {
+		wantT = in
+	}
+	got, err := hx.Observe(res)
+	if err != nil {
+		t.Fatalf("observe: %v\n%s", err, desc())
+	}
+	if diff := hx.Diff(wantT, got); diff != "" {
+		t.Fatalf("Eval result differs from model: %s\n%s\nresult %s", diff, desc(), got.String())
+	}
+	// no temporary survives under any access path: a name the result does not list is not reachable by name either
+	for _, name := range tempLikeNames {
+		if wantT.Find(name) >= 0 {
+			continue
 		}
-		custom := rapid.IntRange(0, 2).Draw(t, "customctx") == 0
-		want := rapid.SampledFrom([]hx.Kind{hx.KInt, hx.KFloat, hx.KBool, hx.KString, hx.KEnum}).Draw(t, "want")
-		expr := hx.GenExprOfKind(t, in, want, rapid.IntRange(0, 3).Draw(t, "depth"), custom)
-		broken := ""
-		if rapid.IntRange(0, 4).Draw(t, "illformed") == 0 {
-			expr, broken = breakExpr(t, expr, in)
+		if res.Contains(name) || res.Select(name).Err == nil || res.Drop(name).Select(name).Err == nil || res.Filter(qframe.Filter{Column: name, Comparator: "isnull"}).Err == nil {
+			t.Fatalf("the result of Eval does not list a column %q but it is reachable by name (Contains %v, Select Err %v)\n%s", name, res.Contains(name), res.Select(name).Err, desc())
 		}
-		dst := rapid.SampledFrom([]string{"n1", "n2", in.Cols[0].Name, in.Cols[len(in.Cols)-1].Name, "n1", "unary-temp-0", "const-temp-1"}).Draw(t, "dst")
-		badDst := false
-		if rapid.IntRange(0, 19).Draw(t, "baddst") == 0 {
-			dst = rapid.SampledFrom([]string{"", "'q'", "\"q\"", "$v", "$", "'q\nq'", "\"\n\""}).Draw(t, "illegaldst")
-			badDst = true
+	}
+	classes := []string{"result:" + col.Kind.String()}
+	if custom {
+		classes = append(classes, "custom-context")
+	}
+	if tempLike {
+		classes = append(classes, "user-columns-named-like-temporaries")
+	}
+	if in.Find(dst) >= 0 {
+		classes = append(classes, "dst-existing")
+	}
+	if expr.MaxArity() >= 3 {
+		classes = append(classes, "n-ary")
+	}
+	constFirst := false
+	var walk func(e hx.Expr)
+	walk = func(e hx.Expr) {
+		if e.Op == "call" && len(e.Args) == 2 && e.Args[0].Op == "const" && e.Args[1].Op == "col" {
+			constFirst = true
 		}
-		desc := func() string {
-			return d.String() + "customctx=" + boolStr(custom) + " dst=" + dst + " expr " + expr.String() + " broken=" + broken
+		for _, a := range e.Args {
+			walk(a)
 		}
-		var fns []eval.ConfigFunc
-		var ctx *eval.Context
-		if custom {
-			ctx = hx.NewCtx()
-			fns = append(fns, eval.EvalContext(ctx))
-		}
-		var res qframe.QFrame
-		realExpr := expr.Build()
-		if custom && rapid.IntRange(0, 3).Draw(t, "reregister") == 0 {
-			// the context is used once while every user function is still a decoy of the same signature (returning zero
-			// values), then the real functions are registered under the same names: the next lookup finds those
-			hx.SetDecoys(ctx)
-			_ = hx.Safely(func() { _ = d.QF.Eval(dst, realExpr, fns...) })
-			hx.SetReal(ctx)
-		}
-		if rapid.IntRange(0, 3).Draw(t, "secondcall") == 0 {
-			// one Expression value used twice (first on a sibling frame with other temporaries in play): the second use counts
-			_ = hx.Safely(func() { _ = d.QF.Copy("const-temp-0", in.Cols[0].Name).Eval(dst, realExpr, fns...) })
-		}
-		if perr := hx.Safely(func() { res = d.QF.Eval(dst, realExpr, fns...) }); perr != nil {
-			t.Fatalf("Eval panicked: %v\n%s", perr, desc())
-		}
-		_, terr := expr.Type(in, custom)
-		if terr != nil || badDst {
-			if res.Err == nil {
-				t.Fatalf("Eval accepted an invalid expression/destination (model: %v, bad dst: %v)\n%s", terr, badDst, desc())
-			}
-			evC07.Case(false, desc, "predicted-error:"+broken)
-			return
-		}
-		if res.Err != nil {
-			t.Fatalf("Eval returned Err for a well-typed expression: %v\n%s", res.Err, desc())
-		}
-		col := expr.EvalCol(in, dst, custom)
-		wantT := in.With(col)
-		if expr.Op == "col" && expr.Col == dst {
-			wantT = in
-		}
-		got, err := hx.Observe(res)
-		if err != nil {
-			t.Fatalf("observe: %v\n%s", err, desc())
-		}
-		if diff := hx.Diff(wantT, got); diff != "" {
-			t.Fatalf("Eval result differs from model: %s\n%s\nresult %s", diff, desc(), got.String())
-		}
-		// no temporary survives under any access path: a name the result does not list is not reachable by name either
-		for _, name := range tempLikeNames {
-			if wantT.Find(name) >= 0 {
-				continue
-			}
-			if res.Contains(name) || res.Select(name).Err == nil || res.Drop(name).Select(name).Err == nil || res.Filter(qframe.Filter{Column: name, Comparator: "isnull"}).Err == nil {
-				t.Fatalf("the result of Eval does not list a column %q but it is reachable by name (Contains %v, Select Err %v)\n%s", name, res.Contains(name), res.Select(name).Err, desc())
-			}
-		}
-		classes := []string{"result:" + col.Kind.String()}
-		if custom {
-			classes = append(classes, "custom-context")
-		}
-		if tempLike {
-			classes = append(classes, "user-columns-named-like-temporaries")
-		}
-		if in.Find(dst) >= 0 {
-			classes = append(classes, "dst-existing")
-		}
-		if expr.MaxArity() >= 3 {
-			classes = append(classes, "n-ary")
-		}
-		constFirst := false
-		var walk func(e hx.Expr)
-		walk = func(e hx.Expr) {
-			if e.Op == "call" && len(e.Args) == 2 && e.Args[0].Op == "const" && e.Args[1].Op == "col" {
-				constFirst = true
-			}
-			for _, a := range e.Args {
-				walk(a)
-			}
-		}
-		walk(expr)
-		if constFirst {
-			classes = append(classes, "const-before-column")
-		}
-		nontrivial := (expr.Depth() >= 2 || expr.MaxArity() >= 3) && d.NonIdentity()
-		evC07.Case(nontrivial, desc, classes...)
-	})
+	}
+	walk(expr)
+	if constFirst {
+		classes = append(classes, "const-before-column")
+	}
+	nontrivial := (expr.Depth() >= 2 || expr.MaxArity() >= 3) && d.NonIdentity()
+	evC07.Case(nontrivial, desc, classes...)
 }
 
 func boolStr(b bool) string {
